@@ -1,9 +1,14 @@
 #!/bin/bash
-# usage: seedrun.sh <ID> <patch> [tier]  -- apply patch to /repo, run the check, revert
+# usage: seedrun.sh <ID> <patch> [tier]
+# Applies the patch in a scratch worktree of /repo HEAD (never in /repo itself), runs the
+# check against that worktree with evidence/replays redirected, removes the worktree.
 id=$1; patch=$2; tier=${3:-quick}
-cd /repo && git diff --quiet -- aldy || { echo "repo dirty"; exit 9; }
-cp -r /verif/evidence /tmp/evidence.bak.$$
-git -C /repo apply $patch || { echo "apply failed"; exit 8; }
-cd /verif && timeout 1500 bin/check $id --tier $tier 2>&1 | grep -E "VIOLATION|what:|KNOWN|HARNESS-ERROR|^\[C|not be reproduced" | cut -c1-400 | head -8
+w=/tmp/sr_${id}_$$
+git -C /repo worktree add -q --detach $w HEAD || exit 9
+cp /repo/aldy/indelpost/*.so $w/aldy/indelpost/ 2>/dev/null
+git -C $w apply $patch || { echo "apply failed"; git -C /repo worktree remove --force $w; exit 8; }
+mkdir -p /tmp/sr_out_$$
+cd /verif && VERIF_REPO=$w VERIF_EVIDENCE=/tmp/sr_out_$$ VERIF_REPLAYS=/tmp/sr_out_$$/replays \
+  timeout 1500 bin/check $id --tier $tier 2>&1 | grep -E "VIOLATION|what:|HARNESS-ERROR|^\[C|not be reproduced" | cut -c1-400 | head -8
 echo "exit=${PIPESTATUS[0]}"
-git -C /repo checkout -- . ; rm -rf /verif/evidence; mv /tmp/evidence.bak.$$ /verif/evidence
+git -C /repo worktree remove --force $w; rm -rf /tmp/sr_out_$$
